@@ -104,7 +104,7 @@ Theorem C11_assign_exact : forall ops s0 a vals, wf s0 -> (a < 3)%nat ->
   | ONone => vals = [] /\ ints (fst r) = cols
              \/ exists xs, Forall2 (q_assigned_int sc off) vals xs
                            /\ length xs = length (nth a cols []) /\ ints (fst r) = set_at cols a xs
-  | OErr e => ints (fst r) = cols /\
+  | OErr e => ints (fst r) = ints s /\     (* a refused assignment does not leave the record grown *)
               (e = EOverflow /\ (exists v, In v vals /\ ~ fitsP (q_store v sc off))
                \/ e = EValue /\ length vals <> length (nth a cols []))
   | OFile _ => False
@@ -122,7 +122,7 @@ Theorem C11_assign_float : forall ops s0 a vals, wf s0 -> (a < 3)%nat ->
   | ONone => vals = [] /\ ints (fst r) = cols
              \/ exists xs, Forall2 (fun v X => f_store v sc off = Some X /\ fitsP X) vals xs
                            /\ length xs = length (nth a cols []) /\ ints (fst r) = set_at cols a xs
-  | OErr e => ints (fst r) = cols /\
+  | OErr e => ints (fst r) = ints s /\
               (e = EOverflow /\ (exists v, In v vals /\ f_store_checked v sc off = Err EOverflow)
                \/ e = EValue /\ length vals <> length (nth a cols []))
   | OFile _ => False
